@@ -1,6 +1,7 @@
 import Mkts.Proto
 import Mkts.Model.CatalogConc
 import Mkts.Driver.Catalog
+import Mkts.Model.CatalogTie
 /-!
 Driver for the `catrace` op (C17 concurrent part), Go side: go/harness/catalog_ops.go.
   catrace <nowYear> <variant> <setup;…> <t1> <t2> <sched>
@@ -8,7 +9,7 @@ variants: `seq01`, `seq10` (one request after the other), `par` (all enabled int
 in the same state), `dc` (the schedule `<sched>`: a string of thread numbers 0/1, one per atom).
 -/
 namespace Mkts.Driver.CatalogConc
-open Mkts.Proto Mkts.Catalog Mkts.CatalogConc Mkts.Driver.Catalog
+open Mkts.Proto Mkts.Catalog Mkts.CatalogConc Mkts.Driver.Catalog Mkts.CatalogTie
 
 def mkThread (nowYear : Int) (sh : Shared) (s : String) : Option Thread :=
   match s.splitOn ":" with
@@ -29,7 +30,7 @@ def runSetup (nowYear : Int) : List String → Shared → Option Shared
   | [], sh => some sh
   | s :: rest, sh => do
     let th ← mkThread nowYear sh s
-    let sys := runSeq 0 64 ⟨[th], sh⟩
+    let sys := runSeq codeVariant 0 64 ⟨[th], sh⟩
     runSetup nowYear rest sys.sh
 
 /-- thread 0 (a Destroy) runs until its next atom is the final `root.removeSubDir` -/
@@ -38,7 +39,7 @@ def runUntilF2 : Nat → Sys → Sys
   | f + 1, s =>
     match s.threads[0]? with
     | some (Thread.destroy _ _ _ DPc.f2) => s
-    | _ => match s.step 0 with
+    | _ => match s.step codeVariant 0 with
       | none => s
       | some s' => runUntilF2 f s'
 
@@ -75,18 +76,21 @@ def catraceOp : Mkts.Proto.Op := fun args =>
         | some th1, some th2 =>
           let sys : Sys := ⟨[th1, th2], sh⟩
           let keys := stepKey t1 ++ stepKey t2
+          let v := codeVariant
           let fin : Option Sys :=
-            if variant == "seq01" then some (runSeq 1 64 (runSeq 0 64 sys))
-            else if variant == "seq10" then some (runSeq 0 64 (runSeq 1 64 sys))
+            if variant == "seq01" then some (runSeq v 1 64 (runSeq v 0 64 sys))
+            else if variant == "seq10" then some (runSeq v 0 64 (runSeq v 1 64 sys))
             else if variant == "dc" then
               -- the directed schedule of the harness: Destroy up to (not including) its final
-              -- root.removeSubDir, then the whole Create, then the rest of Destroy
-              some (runSeq 0 64 (runSeq 1 64 (runUntilF2 64 sys)))
+              -- root.removeSubDir, then as much of the Create as is enabled (all of it before the
+              -- repair, nothing now: it waits for `mutMu`), then the rest of Destroy, then the rest
+              -- of the Create
+              some (runSeq v 1 64 (runSeq v 0 64 (runSeq v 1 64 (runUntilF2 64 sys))))
             else if variant == "sched" then
-              (sched.toList.mapM (fun c => if c == '0' then some 0 else if c == '1' then some 1 else none)).bind sys.run
+              (sched.toList.mapM (fun c => if c == '0' then some 0 else if c == '1' then some 1 else none)).bind (Sys.run v sys)
             else if variant == "par" then
-              match (explore 64 sys).map (render keys) |>.eraseDups with
-              | [_] => (explore 64 sys).head?
+              match (explore v 64 sys).map (render keys) |>.eraseDups with
+              | [_] => (explore v 64 sys).head?
               | _ => none
             else none
           match fin with
@@ -94,13 +98,7 @@ def catraceOp : Mkts.Proto.Op := fun args =>
           | some f =>
             let line := render keys f
             let ok := f.finished
-            -- hypothesis of the concurrent partial theorem: a Destroy and a Create that overlap
-            -- in time work on different symbols
-            let sym (s : String) : String := match s.splitOn ":" with
-              | _ :: items :: _ => (splitItems items).headD ""
-              | _ => ""
-            let hyps := if variant == "dc" && t1.startsWith "D:" && t2.startsWith "C:" && sym t1 == sym t2
-              then ["destroy_concurrent_with_create_same_symbol"] else []
+            let hyps : List String := []
             s!"M:{line}{if ok then "" else " unfinished"}\tS:~ /1\tH:{",".intercalate hyps}"
         | _, _ => "unsupported"
   | _ => badArgs
